@@ -28,7 +28,7 @@ Proof.
 Qed.
 
 Lemma clades_code_is_spec p samples : clades_code p samples = clades_spec p samples.
-Proof. unfold clades_code, clades_spec, clades_code_pinned. apply filter_ldedup. Qed.
+Proof. unfold clades_code, clades_spec, clade_set. apply filter_ldedup. Qed.
 
 Lemma rf_code_is_spec p1 p2 samples : rf_code p1 p2 samples = rf_spec p1 p2 samples.
 Proof. unfold rf_code, rf_spec. rewrite !clades_code_is_spec. reflexivity. Qed.
@@ -45,3 +45,116 @@ Lemma rf_pinned_counts_empty_clade :
     p1 = [1; 2; -1] /\ p2 = [2; 2; -1] /\ samples = [0; 2] /\
     rf_code_pinned p1 p2 samples = 1 /\ rf_spec p1 p2 samples = 0.
 Proof. exists [1; 2; -1], [2; 2; -1], [0; 2]. repeat split; reflexivity. Qed.
+
+(* ---------- rf is a function of the SETS of clades ---------- *)
+From Coq Require Import Permutation.
+
+Lemma zlist_eqb_refl x : zlist_eqb x x = true.
+Proof. apply (list_eqb_eq Z.eqb); [intros a b; apply Z.eqb_eq | reflexivity]. Qed.
+
+Lemma existsb_In x l : existsb (zlist_eqb x) l = true <-> In x l.
+Proof.
+  rewrite existsb_exists. split.
+  - intros [y [H1 H2]]. apply zlist_eqb_true in H2. subst. exact H1.
+  - intros H. exists x. split; [exact H | apply zlist_eqb_refl].
+Qed.
+
+Lemma ldedup_In x l : In x (ldedup l) <-> In x l.
+Proof.
+  induction l as [|a l IH]; [reflexivity|]. simpl.
+  destruct (existsb (zlist_eqb a) l) eqn:E.
+  - rewrite IH. split; [auto|]. intros [H|H]; [subst; apply existsb_In; exact E | exact H].
+  - simpl. rewrite IH. reflexivity.
+Qed.
+
+Lemma ldedup_NoDup l : NoDup (ldedup l).
+Proof.
+  induction l as [|a l IH]; [constructor|]. simpl.
+  destruct (existsb (zlist_eqb a) l) eqn:E; [exact IH|].
+  constructor; [|exact IH]. rewrite ldedup_In. intros H. apply existsb_In in H. congruence.
+Qed.
+
+Lemma clade_set_NoDup l : NoDup (clade_set l).
+Proof. unfold clade_set. apply NoDup_filter. apply ldedup_NoDup. Qed.
+
+Lemma clade_set_In x l : In x (clade_set l) <-> In x l /\ nonempty x = true.
+Proof. unfold clade_set. rewrite filter_In, ldedup_In. reflexivity. Qed.
+
+Lemma existsb_ext_members x (a b : list (list Z)) :
+  (forall y, In y a <-> In y b) -> existsb (zlist_eqb x) a = existsb (zlist_eqb x) b.
+Proof.
+  intros H. destruct (existsb (zlist_eqb x) a) eqn:Ea; destruct (existsb (zlist_eqb x) b) eqn:Eb; try reflexivity.
+  - apply existsb_In in Ea. apply H in Ea. apply existsb_In in Ea. congruence.
+  - apply existsb_In in Eb. apply H in Eb. apply existsb_In in Eb. congruence.
+Qed.
+
+Lemma perm_filter {A} (f : A -> bool) l l' : Permutation l l' -> Permutation (filter f l) (filter f l').
+Proof.
+  induction 1 as [|x l l' H IH|x y l|l l' l'' H1 IH1 H2 IH2]; simpl.
+  - constructor.
+  - destruct (f x); [constructor; exact IH | exact IH].
+  - destruct (f x), (f y); try apply Permutation_refl; apply perm_swap.
+  - eapply Permutation_trans; eassumption.
+Qed.
+
+Lemma symdiff_members a a' b b' :
+  NoDup a -> NoDup a' -> NoDup b -> NoDup b' ->
+  (forall y, In y a <-> In y a') -> (forall y, In y b <-> In y b') ->
+  symdiff a b = symdiff a' b'.
+Proof.
+  intros Na Na' Nb Nb' Ha Hb. unfold symdiff.
+  pose proof (NoDup_Permutation Na Na' Ha) as Pa. pose proof (NoDup_Permutation Nb Nb' Hb) as Pb.
+  assert (E1 : forall l, filter (fun x => negb (existsb (zlist_eqb x) b)) l
+                         = filter (fun x => negb (existsb (zlist_eqb x) b')) l).
+  { intros l. apply filter_ext. intros x. rewrite (existsb_ext_members x b b' Hb). reflexivity. }
+  assert (E2 : forall l, filter (fun x => negb (existsb (zlist_eqb x) a)) l
+                         = filter (fun x => negb (existsb (zlist_eqb x) a')) l).
+  { intros l. apply filter_ext. intros x. rewrite (existsb_ext_members x a a' Ha). reflexivity. }
+  rewrite E1, E2.
+  rewrite (Permutation_length (perm_filter _ _ _ Pa)), (Permutation_length (perm_filter _ _ _ Pb)).
+  reflexivity.
+Qed.
+
+(* two per-node clade lists with the same members give the same distance *)
+Lemma rf_of_lists_members l1 l1' l2 l2' :
+  (forall c, In c l1 <-> In c l1') -> (forall c, In c l2 <-> In c l2') ->
+  rf_of_lists l1 l2 = rf_of_lists l1' l2'.
+Proof.
+  intros H1 H2. unfold rf_of_lists.
+  apply symdiff_members; try apply clade_set_NoDup.
+  - intros y. rewrite !clade_set_In, H1. reflexivity.
+  - intros y. rewrite !clade_set_In, H2. reflexivity.
+Qed.
+
+(* a node that repeats an existing clade (a unary node above c, or a parent whose other
+   children carry no samples) does not change the distance, in either argument *)
+Lemma rf_repeated_clade l1 l2 c : In c l1 ->
+  rf_of_lists (l1 ++ [c]) l2 = rf_of_lists l1 l2 /\ rf_of_lists l2 (l1 ++ [c]) = rf_of_lists l2 l1.
+Proof.
+  intros Hc.
+  assert (M : forall y, In y (l1 ++ [c]) <-> In y l1).
+  { intros y. rewrite in_app_iff. simpl. split; [intros [H|[H|[]]]; [exact H | subst; exact Hc] | auto]. }
+  split; apply rf_of_lists_members; try exact M; intros y; reflexivity.
+Qed.
+
+Lemma rf_code_of_lists p1 p2 samples :
+  rf_code p1 p2 samples = rf_of_lists (clade_list p1 samples) (clade_list p2 samples).
+Proof. reflexivity. Qed.
+
+(* non-vacuity: samples 0,1,2; A = ((0,1),2); A' = A with the unary node 5 between 3 and 4;
+   B = (0,(1,2)).  The per-node clade list of A' repeats {0,1}; the distance stays 2. *)
+Example rf_unary_example :
+  rf_code [3; 3; 4; 4; -1] [4; 3; 3; 4; -1] [0; 1; 2] = 2 /\
+  rf_code [3; 3; 4; 5; -1; 4] [4; 3; 3; 4; -1] [0; 1; 2] = 2 /\
+  clade_list [3; 3; 4; 5; -1; 4] [0; 1; 2] = [[0]; [1]; [2]; [0; 1]; [0; 1; 2]; [0; 1]].
+Proof. repeat split; reflexivity. Qed.
+
+Lemma rf_sets_all :
+  (forall l1 l1' l2 l2' : list (list Z),
+      (forall c, In c l1 <-> In c l1') -> (forall c, In c l2 <-> In c l2') ->
+      rf_of_lists l1 l2 = rf_of_lists l1' l2') /\
+  (forall (l1 l2 : list (list Z)) (c : list Z), In c l1 ->
+      rf_of_lists (l1 ++ [c]) l2 = rf_of_lists l1 l2 /\ rf_of_lists l2 (l1 ++ [c]) = rf_of_lists l2 l1) /\
+  (forall p1 p2 samples,
+      rf_code p1 p2 samples = rf_of_lists (clade_list p1 samples) (clade_list p2 samples)).
+Proof. exact (conj rf_of_lists_members (conj rf_repeated_clade rf_code_of_lists)). Qed.
